@@ -20,7 +20,7 @@ from typing import Dict, List, Optional, Set, Tuple
 
 from ..callgraph import get_callgraph
 from ..flow import defuse, names_in
-from ..guards import src
+from ..guards import path_conditions, src
 from ..index import AnalysisError, FuncInfo, Index, Module, call_name, dotted, enclosing_stmt, parents, walk_no_nested
 from ..report import Results
 
@@ -441,6 +441,7 @@ def run(res: Results, idx: Index, tier: str) -> None:
                     res.violation("R-C13d", site, key, f"{what} is changed but no enclosing/following `finally` restores it", fi.qualname)
 
     rule_e(res, idx, mods)
+    rule_f(res, idx, mods)
     _controls(res)
 
 
@@ -505,6 +506,88 @@ def _controls(res: Results) -> None:
     fired = any(i.status == "VIOLATION" and "before the restoring" in i.detail for i in tmp.instances) and any(i.status == "VIOLATION" and "restore-order" in i.key for i in tmp.instances)
     res.control("R-C13a", "loop of setattr before try + forward-order restore is flagged", fired)
     res.control("R-C13b", "module-level `jnp.foo = 1` resolves to a third-party namespace", any(host_root(m, n.targets[0].value) == "jax" for n in m.tree.body if isinstance(n, ast.Assign) and isinstance(n.targets[0], ast.Attribute)))
+
+
+# ---------------------------------------------------------------------------------------------- R-C13f
+OWN_PROBES = {"vars", "getattr_static", "owns_attr", "_owns_attr"}
+
+
+def _is_ownership_probe(idx: Index, m, fi, e: ast.AST) -> bool:
+    for x in ast.walk(e):
+        if isinstance(x, ast.Attribute) and x.attr == "__dict__":
+            return True
+        if isinstance(x, ast.Call):
+            last = (call_name(x) or "").split(".")[-1]
+            if last in OWN_PROBES:
+                return True
+            g = idx.resolve_func(m, call_name(x) or "", cls=fi.cls, scope=fi)
+            if g is not None and any((isinstance(y, ast.Attribute) and y.attr == "__dict__") or (isinstance(y, ast.Call) and (call_name(y) or "").split(".")[-1] in ("vars", "getattr_static")) for y in ast.walk(g.node)):
+                return True
+    return False
+
+
+def rule_f(res: Results, idx: Index, mods) -> None:
+    """Generic patchers (the patched object is a loop variable: any class or module a spec names) save with
+    getattr(), which follows the MRO.  Writing that value back with setattr() pins an own copy on a class that only
+    *inherited* the attribute — a base-class tracing shim if the base was patched at capture time — so the restore
+    must distinguish own from inherited attributes (vars(t) / t.__dict__ / a helper doing so) and delete the override
+    in the inherited case."""
+    res.rule("R-C13f", "generic attribute patchers restore inherited attributes by deleting the override, not by setattr", floor=2)
+    n = 0
+    for m in mods:
+        for fi in m.funcs.values():
+            decos = {(dotted(d) or "").split(".")[-1] for d in getattr(fi.node, "decorator_list", [])}
+            if "contextmanager" not in decos:
+                continue
+            tries = [t for t in walk_no_nested(fi.node) if isinstance(t, ast.Try) and t.finalbody]
+            sets = [c for c in walk_no_nested(fi.node) if isinstance(c, ast.Call) and (call_name(c) or "") == "setattr" and len(c.args) == 3 and isinstance(c.args[0], ast.Name) and not _own_object(c.args[0].id)]
+            back = [c for c in sets if any(_in_block(c, t.finalbody) for t in tries)]
+            fwd = [c for c in sets if c not in back]
+            if not fwd or not back:
+                continue
+            du = defuse(fi.node)
+            # generic: the patched object is (derived from) a loop variable
+            loop_vars = {n_ for lp in walk_no_nested(fi.node) if isinstance(lp, ast.For) for n_ in names_in(lp.target)}
+            generic = [c for c in fwd if (du.closure({c.args[0].id}) | {c.args[0].id}) & loop_vars]
+            if not generic:
+                continue
+            n += 1
+            key = f"{m.rel}::{fi.qualname}::inherited-restore"
+            site = f"{m.rel}:{back[0].lineno}"
+            probes = [st for st in walk_no_nested(fi.node) if isinstance(st, (ast.Assign, ast.AnnAssign)) and st.value is not None and _is_ownership_probe(idx, m, fi, st.value) and not any(_in_block(st, t.finalbody) for t in tries)]
+            dels = [c for c in walk_no_nested(fi.node) if isinstance(c, ast.Call) and (call_name(c) or "") == "delattr" and any(_in_block(c, t.finalbody) for t in tries)]
+            probe_names = {t.id for st in probes for t in (st.targets if isinstance(st, ast.Assign) else [st.target]) if isinstance(t, ast.Name)}
+            rec_keys = {k.value for dct in walk_no_nested(fi.node) if isinstance(dct, ast.Dict) for k, v in zip(dct.keys, dct.values)
+                        if isinstance(k, ast.Constant) and isinstance(k.value, str) and isinstance(v, ast.Name) and v.id in probe_names}
+
+            def _uses_probe(c: ast.AST) -> bool:
+                for e, _w in path_conditions(c):
+                    for x in ast.walk(e):
+                        if isinstance(x, ast.Name) and x.id in probe_names:
+                            return True
+                        if isinstance(x, ast.Constant) and x.value in rec_keys:
+                            return True
+                return False
+            conditional = all(_uses_probe(c) for c in back)
+            if probes and dels and conditional:
+                res.ok("R-C13f", site, key, f"ownership is probed before patching (`{src(probes[0].value, 40)}`); the finally block deletes the override for inherited attributes", fi.qualname)
+            else:
+                miss = []
+                if not probes:
+                    miss.append("no own-vs-inherited probe (vars(t) / t.__dict__) before the write")
+                if not dels:
+                    miss.append("no delattr on the restore path")
+                if not conditional:
+                    miss.append("the restoring setattr does not depend on the ownership probe")
+                res.violation("R-C13f", site, key, "getattr() follows the MRO, and the value is written back with setattr(): a class that only inherited the attribute keeps an own copy after the conversion (the base's tracing shim if the base was patched when it was captured) — " + "; ".join(miss), fi.qualname)
+    res.analysed["generic_patchers"] = n
+
+
+def _parents_until(n: ast.AST, stop: ast.AST):
+    cur = getattr(n, "parent", None)
+    while cur is not None and cur is not stop:
+        yield cur
+        cur = getattr(cur, "parent", None)
 
 
 # ---------------------------------------------------------------------------------------------- R-C13e
